@@ -32,7 +32,9 @@ def texts(ctx):
              'crlf\r\nlines\r\n', 'no final newline', 'final newline\n', 'two final newlines\n\n', '\n\n\n', ' ', '\t',
              'a\n\n\nb', '-', '- ', '-\n-', 'Hash: SHA256', '=abcd', '-----END PGP SIGNATURE-----',
              'Hash: SHA512\n\nbody after a header-looking first line', 'Hash: SHA1\n\nHash: MD5\n\nx', 'Hash: SHA256\n', '\nHash: SHA256\n\ny',
-             'Comment: not a header\n\ntext', 'Hash: SHA256,SHA1\n\n-dash']
+             'Comment: not a header\n\ntext', 'Hash: SHA256,SHA1\n\n-dash',
+             # mixed line endings in one text (each ending is canonicalised on its own)
+             'one\r\ntwo\nthree', 'x\ny\r\nz\n', 'a\n\r\nb\n\n\r\n', '- d\r\n-e\nf \r\ng\t\n']
     out += extra
     for _ in range(30 if ctx.quick else 600):
         ln = ctx.rng.randrange(5, 60)
